@@ -253,9 +253,11 @@ struct Stat {
     first_class_mismatch: [Option<u32>; 2],
     exceed: [u64; 2],
     exceed_both: u64,
-    /// Worst argument exceeding the bound against both references, by
-    /// min(error vs f32 ref, error vs f64 ref).
+    /// Worst argument exceeding the bound against both references, by the
+    /// error against the f64 reference (ties: smallest bit pattern).
     worst_both: Worst,
+    /// Up to 16 arguments (smallest bit patterns) exceeding against both.
+    both_list: Vec<u32>,
     zero_sign_differs: u64,
     ref_zero_nonzero_result: u64,
     refs_disagree_on_verdict: u64,
@@ -272,6 +274,7 @@ impl Stat {
             exceed: [0; 2],
             exceed_both: 0,
             worst_both: Worst::NONE,
+            both_list: Vec::new(),
             zero_sign_differs: 0,
             ref_zero_nonzero_result: 0,
             refs_disagree_on_verdict: 0,
@@ -291,6 +294,10 @@ impl Stat {
         }
         self.exceed_both += o.exceed_both;
         self.worst_both.merge(o.worst_both);
+        self.both_list.extend_from_slice(&o.both_list);
+        self.both_list.sort_unstable();
+        self.both_list.dedup();
+        self.both_list.truncate(16);
         self.zero_sign_differs += o.zero_sign_differs;
         self.ref_zero_nonzero_result += o.ref_zero_nonzero_result;
         self.refs_disagree_on_verdict += o.refs_disagree_on_verdict;
@@ -320,7 +327,15 @@ impl Stat {
         }
         if ex[0] && ex[1] {
             self.exceed_both += 1;
-            self.worst_both.update(severity(errs[0]).min(severity(errs[1])), x.to_bits());
+            // Ranked by the error against the f64 reference, which does not
+            // depend on the host's libm.
+            self.worst_both.update(severity(errs[1]), x.to_bits());
+            if self.both_list.len() < 16 || x.to_bits() < *self.both_list.last().unwrap() {
+                self.both_list.push(x.to_bits());
+                self.both_list.sort_unstable();
+                self.both_list.dedup();
+                self.both_list.truncate(16);
+            }
         } else if ex[0] != ex[1] {
             self.refs_disagree_on_verdict += 1;
         }
@@ -364,7 +379,9 @@ fn eval_chunk(fun: Fun, isas: &[IsaKind], bits: &[u32], bufs: &mut ChunkBufs, st
     bufs.r32.clear();
     bufs.r64.clear();
     bufs.r32.extend(bufs.x.iter().map(|x| fun.ref32(*x)));
-    bufs.r64.extend(bufs.x.iter().map(|x| fun.ref64(*x)));
+    // Outside the bounded domain (Sin/Cos beyond +-48000) only the class of the
+    // result is compared; the (slow, Payne-Hanek) f64 evaluation is skipped.
+    bufs.r64.extend(bufs.x.iter().zip(&bufs.r32).map(|(x, r)| if fun.bound_applies(*x) { fun.ref64(*x) } else { *r }));
     for (k, &isa) in isas.iter().enumerate() {
         bufs.y.clear();
         bufs.y.extend_from_slice(&bufs.x);
@@ -378,9 +395,13 @@ fn eval_chunk(fun: Fun, isas: &[IsaKind], bits: &[u32], bufs: &mut ChunkBufs, st
 
 /// Arguments previously observed as worst cases on this host (kept in the
 /// quick sample so that both tiers see them).
-const POINTS_OF_INTEREST: [u32; 2] = [
-    0x3ef2_4149, // 0.47315452 (tanh, DESIGN C19)
-    0xc733_2eea, // -45870.914 (sin, DESIGN C19)
+const POINTS_OF_INTEREST: [u32; 6] = [
+    0x3ef2_414f, // 0.47315452: tanh 4 ULP vs glibc tanhf (2 ULP vs f64), DESIGN C19
+    0xc733_2eea, // -45870.914: sin, DESIGN C19
+    0x4732_d0ad, // 45776.676: worst sin argument under AVX2 / AVX-512 (exhaustive sweep)
+    0x4719_bb09, // 39355.035: worst sin argument under the generic ISA
+    0xc730_4df6, // -45133.96: worst cos argument under the generic ISA
+    0x3d1b_8342, // 0.037966974: worst erf argument (generic ISA, exactly at the bound)
 ];
 
 /// Quick-tier sample: every 1024th bit pattern, plus every pattern within 64 of
@@ -391,7 +412,7 @@ fn quick_sample() -> Vec<u32> {
     for k in 0..(1u32 << 22) {
         v.push(k << 10);
     }
-    let mut around = |v: &mut Vec<u32>, b: u32| {
+    let around = |v: &mut Vec<u32>, b: u32| {
         for d in -64i64..=64 {
             let x = b as i64 + d;
             if (0..=u32::MAX as i64).contains(&x) {
@@ -461,6 +482,7 @@ fn stat_json(fun: Fun, st: &Stat) -> Json {
         "worst_vs_f32_reference": w(st.worst[0]), "worst_vs_f64_reference": w(st.worst[1]),
         "exceeding_bound_vs_f32_reference": st.exceed[0], "exceeding_bound_vs_f64_reference": st.exceed[1],
         "exceeding_bound_vs_both": st.exceed_both,
+        "first_arguments_exceeding_vs_both": st.both_list.iter().map(|b| format!("0x{:08x}", b)).collect::<Vec<_>>(),
         "class_mismatch_vs_f32_reference": st.class_mismatch[0], "class_mismatch_vs_f64_reference": st.class_mismatch[1],
         "first_class_mismatch_bits": [st.first_class_mismatch[0].map(|b| format!("0x{:08x}", b)), st.first_class_mismatch[1].map(|b| format!("0x{:08x}", b))],
         "zero_results_with_sign_differing_from_f64_reference": st.zero_sign_differs,
